@@ -47,6 +47,8 @@ impl Assembler {
     pub uninterp spec fn end_spec(&self) -> u64;
     /// nothing buffered
     pub uninterp spec fn empty_spec(&self) -> bool;
+    /// ghost history of everything handed to the assembler: (offset, bytes) per insert
+    pub uninterp spec fn log(&self) -> Seq<(u64, Seq<u8>)>;
     #[verifier::external_body] pub fn new() -> (r: Self) ensures r.bytes_read_spec() == 0, r.end_spec() == 0, r.empty_spec() { unimplemented!() }
     #[verifier::external_body] pub fn reinit(&mut self) ensures final(self).bytes_read_spec() == 0, final(self).end_spec() == 0, final(self).empty_spec() { unimplemented!() }
     #[verifier::external_body] pub fn clear(&mut self) ensures final(self).bytes_read_spec() == old(self).bytes_read_spec(), final(self).end_spec() == old(self).end_spec(), final(self).empty_spec() { unimplemented!() }
@@ -62,6 +64,7 @@ impl Assembler {
     #[verifier::external_body] pub fn insert(&mut self, offset: u64, bytes: Bytes, allocation_size: usize) -> (r: Result<(), TooManyChunks>)
         requires offset + bytes@.len() <= u64::MAX
         ensures final(self).bytes_read_spec() == old(self).bytes_read_spec(),
+            final(self).log() == old(self).log().push((offset, bytes@)),
             final(self).end_spec() == (if offset + bytes@.len() > old(self).end_spec() { (offset + bytes@.len()) as u64 } else { old(self).end_spec() }) { unimplemented!() }
 }
 }
@@ -151,6 +154,10 @@ impl Recv {
                     &&& closed == (frame.fin && old(self).stopped)
                     &&& (frame.fin && !old(self).stopped && old(self).state is Recv ==> final(self).final_size() == Some(end))
                     &&& (!(frame.fin && !old(self).stopped) ==> final(self).state == old(self).state)
+                    // every accepted frame of a stream that is still being read is handed to the reassembly buffer, whole and at its offset;
+                    // nothing is handed over once the application stopped the stream
+                    &&& (!old(self).stopped ==> final(self).assembler.log() == old(self).assembler.log().push((frame.offset, frame.data@)))
+                    &&& (old(self).stopped ==> final(self).assembler.log() == old(self).assembler.log())
                 },
                 Err(e) => {
                     let end = frame.offset + frame.data@.len();
